@@ -189,8 +189,8 @@ def run_clean(ctx, rng, base, spec, cases):
         s = rng.choice([0.5, 1.0, 1.5, 2.0, 3.0])
         args.append(f"--size={s}")
         o["size"] = int(s * 2 ** 30)
-    if rng.random() < 0.3:
-        t = rng.sample(spec["groups"], rng.randint(1, len(spec["groups"])))
+    if rng.random() < 0.4:
+        t = rng.sample(spec["groups"], rng.choice([1, len(spec["groups"]), rng.randint(1, len(spec["groups"]))]))
         args += [f"--target={x}" for x in t]
         o["targets"] = [ix.group_id[x] for x in t]
     before = ix.copies()
